@@ -5,7 +5,7 @@ raises, kwargs_support ignores exactly the undeclared keywords.
 Functions are generated from their signature shape (n positional parameters a,b,c,d; nd trailing defaults; *args; **kw) and echo
 everything they were bound to; argument values are distinct opaque strings.  The reference for "what f returns" is a direct call
 of the undecorated f, the reference for binding is the standard library's inspect.getcallargs."""
-import inspect, itertools, random
+import inspect, itertools, random, reprlib
 from rac.common import Collector
 
 NAMES = ['a', 'b', 'c', 'd']
@@ -135,7 +135,8 @@ def check_transparent(c, wname, shape, p, kwnames):
 
 def check_fallback(c, wname, shape, p, kwnames):
     """try_* wrappers return their fallback exactly when f raises (the non-raising side is check_transparent: f never returns None / 0)"""
-    W = decorators()[wname]
+    import pyg_base as pb
+    W = decorators()[wname] if wname in decorators() else getattr(pb, wname)
     g, src = make_f(*shape, raising=True)
     pos, kw = _args(p, kwnames)
     call = dict(kind='fallback', W=wname, shape=list(shape), p=p, kwnames=kwnames)
@@ -144,12 +145,12 @@ def check_fallback(c, wname, shape, p, kwnames):
             return                    # the fallback of try_back is the first argument of the call: undefined when none is passed
         exp = pos[0] if p > 0 else kw[NAMES[0]]
     else:
-        exp = dict(try_none=None, try_zero=0)[wname]
+        exp = dict(try_none=None, try_zero=0, try_nan=float('nan'), try_true=True, try_false=False, try_list=[])[wname]
     txt = 'f = %s raising ZeroDivisionError; %s(f)(*%r, **%r)' % (src, wname, pos, kw)
     _BOOM[0] = True
     try:
         got = W(g)(*pos, **dict(kw))
-        c.check(got is exp or (exp is not None and got == exp), 'C18:try:fallback:%s' % wname, '%s = %r, expected the fallback %r' % (txt, got, exp), call)
+        c.check(got is exp or (exp is not None and _same_fallback(got, exp)), 'C18:try:fallback:%s' % wname, '%s = %r, expected the fallback %r' % (txt, got, exp), call)
     except Exception as e:      # noqa
         c.check(False, 'C18:try:fallback:%s' % wname, '%s raised %r instead of returning the fallback %r' % (txt, e, exp), call)
     finally:
@@ -255,8 +256,39 @@ TWINS = {3: 4, 4: 3, 9: 10, 10: 9}      # list vs tuple of the same elements; di
 SET_CALLS = {7}
 
 
-def check_cache_history(c, seq):
-    """seq: indexes into CACHE_CALLS. f is pure and counts its evaluations."""
+def hash_twins():
+    """pairs of values that are NOT == but have equal hash() on this interpreter: -1 / -2 (hash(-1) is -2 in CPython), x / x + P for the
+    hash modulus P (ints are hashed mod P), inf / sys.hash_info.inf.  Pairs that do not collide here are dropped.  Values that are == to
+    each other (1, 1.0, True) are deliberately absent: those legitimately share a dictionary key."""
+    import sys
+    P = sys.hash_info.modulus
+    cands = [(-1, -2), (0, P), (5, 5 + P), (float('inf'), sys.hash_info.inf), (-2, -1.0 - P)]
+    return [(x, y) for x, y in cands if x != y and hash(x) == hash(y)]
+
+
+def hash_calls():
+    """the call universe for hash-equal arguments: every twin pair in every argument position of g(a, b=1, *args, **kw) - positional,
+    by keyword, as the default-carrying parameter, in *args, in **kw, inside a tuple / list / dict argument; twin calls are adjacent
+    (2i, 2i+1).  JSON form as in CACHE_CALLS."""
+    out = []
+    x, y = -1, -2
+    for mk in (lambda v: ([v], {}), lambda v: ([], {'a': v}), lambda v: ([1, v], {}), lambda v: ([1], {'b': v}), lambda v: ([1, 2, v], {}),
+               lambda v: ([1], {'z': v}), lambda v: ([['T', 0, v]], {}), lambda v: ([['L', v]], {}), lambda v: ([1], {'x': ['D', [['k', v]]]}),
+               lambda v: ([v, v], {})):
+        out += [mk(x), mk(y)]
+    for x, y in hash_twins()[1:]:
+        out += [([x], {}), ([y], {}), ([1], {'b': x}), ([1], {'b': y})]
+    return out
+
+
+HASH_CALLS = hash_calls()
+UNIVERSES = dict(main=CACHE_CALLS, hash=HASH_CALLS)
+
+
+def check_cache_history(c, seq, universe='main'):
+    """seq: indexes into CACHE_CALLS (universe 'main') or HASH_CALLS (universe 'hash'). f is pure and counts its evaluations."""
+    if universe == 'hash':
+        return check_cache_history_hash(c, seq)
     from pyg_base._cache import cache_func
     calls = []
 
@@ -285,6 +317,103 @@ def check_cache_history(c, seq):
         c.check(r == exp, 'C18:cache:value' + cls, '%s returned %r, g returns %r' % (txt, r, exp), call)
 
 
+def _hkey(j):
+    """a call of HASH_CALLS (JSON form) with every leaf replaced by its hash: equal for calls that differ only by hash-equal values"""
+    if isinstance(j, (list, tuple)):
+        return tuple(_hkey(i) for i in j)
+    if isinstance(j, dict):
+        return tuple(sorted((k, _hkey(v)) for k, v in j.items()))
+    return j if isinstance(j, str) else hash(j)
+
+
+def check_cache_history_hash(c, seq):
+    """as check_cache_history over HASH_CALLS: a combination is new unless an == combination was passed before; a call that differs from
+    an earlier one of the history only by hash-equal values belongs to the input class 'hash-equal-arguments'"""
+    from pyg_base._cache import cache_func
+    calls = []
+
+    def g(a, b=1, *args, **kw):
+        calls.append(1)
+        return ['g', a, b, args, kw]
+    cg = cache_func(g)
+    seen = []
+    call = dict(kind='cache', seq=list(seq), universe='hash')
+    for step, i in enumerate(seq):
+        pos, kw = [_j2arg(a) for a in HASH_CALLS[i][0]], {k: _j2arg(v) for k, v in HASH_CALLS[i][1].items()}
+        combo = (tuple(pos), kw)
+        first = not any(combo == s for s in seen)
+        seen.append(combo)
+        cls = ':hash-equal-arguments' if any(HASH_CALLS[j] != HASH_CALLS[i] and _hkey(HASH_CALLS[j]) == _hkey(HASH_CALLS[i]) for j in seq[:step]) else ''
+        txt = 'cached g(a, b=1, *args, **kw), calls %r, at call #%d = g(*%r, **%r)' % ([HASH_CALLS[j] for j in seq[:step + 1]], step, pos, kw)
+        before = len(calls)
+        try:
+            r = cg(*pos, **kw)
+        except Exception as e:      # noqa
+            c.check(False, 'C18:cache:raises' + cls, '%s raised %r' % (txt, e), call)
+            return
+        c.check(len(calls) - before == (1 if first else 0), 'C18:cache:count' + cls,
+                '%s: g evaluated %d time(s), expected %d (%s combination)' % (txt, len(calls) - before, 1 if first else 0, 'new' if first else 'repeated'), call)
+        ref = (lambda a, b=1, *args, **kw: ['g', a, b, args, kw])(*pos, **kw)
+        c.check(r == ref, 'C18:cache:value' + cls, '%s returned %r, g returns %r' % (txt, r, ref), call)
+
+
+# ----------------------------------------------------------------------------------------------- try_* over call sequences, mutable fallbacks
+def _fallbacks():
+    """name -> (factory of the decorator, the configured fallback as a fresh value, top-level mutation applied by the caller)"""
+    import pyg_base as pb
+    nan = float('nan')
+    return dict(try_list=(lambda: pb.try_list, lambda: [], lambda r: r.extend(['added by the caller', 1])),
+                value_list=(lambda: pb.try_value(value=[1, 2]), lambda: [1, 2], lambda r: r.append(3)),
+                value_list_clear=(lambda: pb.try_value(value=[1, 2]), lambda: [1, 2], lambda r: r.clear()),
+                value_dict=(lambda: pb.try_value(value={'status': 'missing'}), lambda: {'status': 'missing'}, lambda r: r.update(status='patched', extra=1)),
+                value_set=(lambda: pb.try_value(value={1, 2}), lambda: {1, 2}, lambda r: r.add(3)),
+                try_nan=(lambda: pb.try_nan, lambda: nan, None), try_true=(lambda: pb.try_true, lambda: True, None), try_false=(lambda: pb.try_false, lambda: False, None),
+                try_zero=(lambda: pb.try_zero, lambda: 0, None), try_none=(lambda: pb.try_none, lambda: None, None),
+                value_str=(lambda: pb.try_value(value='fallback'), lambda: 'fallback', None), value_tuple=(lambda: pb.try_value(value=(1, [2])), lambda: (1, [2]), None))
+
+
+def _same_fallback(got, exp):
+    if isinstance(exp, float) and exp != exp:
+        return isinstance(got, float) and got != got
+    return type(got) is type(exp) and got == exp
+
+
+STEPS = ['ok', 'fail', 'fail+mutate', 'fail-other-f', 'fail-other-f+mutate']
+
+
+def check_try_sequence(c, wname, seq):
+    """seq: a history of calls on wrappers built from ONE decorator instance: 'ok' f succeeds, 'fail' f raises, '+mutate' the caller then
+    changes the value it was handed in place (top level), 'other-f' the call goes to a second function wrapped by the same decorator.
+    Every failing call must return a value equal to the configured fallback, every succeeding call f's value."""
+    mk, fresh, mutate = _fallbacks()[wname]
+    call = dict(kind='try_seq', W=wname, seq=list(seq))
+    W = mk()
+    first = lambda a, b=0: a[b]                  # noqa  raises on a non-subscriptable a
+    other = lambda a, b=0: a / b                 # noqa  raises ZeroDivisionError / TypeError
+    try:
+        w1, w2 = W(first), W(other)
+    except Exception as e:      # noqa
+        return c.check(False, 'C18:try:sequence:raises', '%s: wrapping raised %r' % (wname, e), call)
+    cls = ':mutable-fallback' if mutate is not None else ''
+    done = []
+    for step, what in enumerate(seq):
+        done.append(what)
+        txt = '%s, call history %r' % (wname, done)
+        try:
+            if what == 'ok':
+                got = w1('xyz', step % 3)
+                c.check(got == 'xyz'[step % 3], 'C18:try:sequence:transparent' + cls, '%s: the succeeding call returned %r, f returns %r' % (txt, got, 'xyz'[step % 3]), call)
+                continue
+            got = (w2(step, 0) if 'other-f' in what else w1(5, b=step))
+        except Exception as e:      # noqa
+            return c.check(False, 'C18:try:sequence:raises' + cls, '%s raised %r' % (txt, e), call)
+        if not c.check(_same_fallback(got, fresh()), 'C18:try:sequence:fallback' + cls, '%s: the failing call returned %s, the configured fallback is %r' % (txt, reprlib.repr(got), fresh()), call):
+            return False
+        if 'mutate' in what and mutate is not None:
+            mutate(got)
+    return True
+
+
 # ----------------------------------------------------------------------------------------------- driver
 def _sampler(limit=2):
     """-> take(category, sample, when=True): the sample for the first `limit` cases of a category that satisfy `when`, else None"""
@@ -307,8 +436,13 @@ def run(tier, seed):
                   'into **kw; per call: getcallargs vs inspect.getcallargs, call_with_callargs round trip, W(f)(call) == f(call) for W in try_none, try_zero, try_back, kwargs_support, cache, '
                   'loop(list,tuple,dict), pd2np (argument values are opaque strings: non-container, non-pandas), fallback of try_* on a raising twin of f, kwargs_support with 1-2 extra '
                   'keywords on functions without **kw; per shape: getargspec(W(f)) vs f, every stack of <= 3 decorators against its normal form (inner duplicates removed) by ==, argspec '
-                  'and behaviour; cache: every call history of length <= %d over 12 argument combinations (hashable, list/tuple twins, dict, nested, set, *args/**kw). '
-                  'A case is non-trivial when the call passes at least one argument; distinct by (shape, call, decorator)' % (3 if quick else 4),
+                  'and behaviour; cache: every call history of length <= %d over 12 argument combinations (hashable, list/tuple twins, dict, nested, set, *args/**kw); every history of '
+                  'length 2 (and 3: %s) over %d combinations built from values that are not == but hash-equal on this interpreter (-1/-2, x/x+hash modulus, inf/hash_info.inf) in '
+                  'every argument position (positional, keyword, default-carrying, *args, **kw, inside tuple/list/dict). try_*: the fallback of try_none/zero/nan/true/false/list/back '
+                  'on every call of a raising twin; every call history of length <= %d over {f succeeds, f raises, f raises and the caller mutates the returned value in place, '
+                  'the same on a second function wrapped by the same decorator} for mutable fallbacks (try_list, value=[..], {..}, set) and {succeeds, raises} for immutable ones. '
+                  'A case is non-trivial when the call passes at least one argument; distinct by (shape, call, decorator)'
+                  % (3 if quick else 4, 'those holding a twin pair' if quick else 'all', len(HASH_CALLS), 4 if quick else 5),
                   exhaustive=True, scope='60 signature shapes x all positional/keyword splits x 7 decorators; all stacks <= 3; all cache histories <= %d over 12 calls' % (3 if quick else 4))
     take = _sampler(3)
     for shape in shapes():
@@ -320,7 +454,7 @@ def run(tier, seed):
             for w in wnames:
                 check_transparent(c, w, shape, p, kwnames)
                 c.case(('transparent', w, shape, p, tuple(kwnames)), nontrivial=p + len(kwnames) > 0)
-            for w in ('try_none', 'try_zero', 'try_back'):
+            for w in ('try_none', 'try_zero', 'try_back', 'try_nan', 'try_true', 'try_false', 'try_list'):
                 check_fallback(c, w, shape, p, kwnames)
                 c.case(('fallback', w, shape, p, tuple(kwnames)), nontrivial=True)
             if not vk:
@@ -341,6 +475,24 @@ def run(tier, seed):
         for seq in itertools.product(range(len(CACHE_CALLS)), repeat=k):
             check_cache_history(c, seq)
             c.case(('cache', seq), nontrivial=len(set(seq)) < len(seq) or any(TWINS.get(i) in seq for i in seq), sample=take('cache', dict(history=[CACHE_CALLS[i] for i in seq]), len(seq) == 3 and seq[0] == 5 and seq[2] == 5))
+    # cache histories over hash-equal but unequal arguments (every pair and, seeded in the quick tier, triples)
+    nh = len(HASH_CALLS)
+    for seq in itertools.product(range(nh), repeat=2):
+        check_cache_history(c, seq, 'hash')
+        c.case(('cache-hash', seq), nontrivial=True, sample=take('cache-hash', dict(history=[HASH_CALLS[i] for i in seq]), seq == (0, 1)))
+    triples = list(itertools.product(range(nh), repeat=3))
+    for seq in (triples if not quick else [t for t in triples if (t[0] ^ 1) == t[1] or (t[1] ^ 1) == t[2] or (t[0] ^ 1) == t[2]]):
+        check_cache_history(c, seq, 'hash')
+        c.case(('cache-hash', seq), nontrivial=True)
+    # try_*: every call history of length <= 4 (quick) / 5 over {ok, fail, fail then the caller mutates what it got, the same on a second function}
+    for wname, (_, _, mutate) in _fallbacks().items():
+        steps = STEPS if mutate is not None else ['ok', 'fail', 'fail-other-f']
+        for k in [2, 1, 3, 4] + ([] if quick else [5]):
+            # the shortest self-contained witness of a shared fallback goes first (try_list is ONE module-level decorator instance: once a
+            # history has damaged its fallback every later history sees it, and the first recorded call should replay on its own)
+            for seq in sorted(itertools.product(steps, repeat=k), key=lambda q: q != ('fail+mutate', 'fail')) if k == 2 else itertools.product(steps, repeat=k):
+                check_try_sequence(c, wname, seq)
+                c.case(('try_seq', wname, seq), nontrivial=any(x != 'ok' for x in seq), sample=take('try_seq', dict(decorator=wname, history=list(seq)), wname == 'try_list' and seq == ('fail+mutate', 'fail')))
     return c.result()
 
 
@@ -361,7 +513,9 @@ def replay(call):
     elif kind == 'stack':
         check_stack(c, call['stack'], shape, call['p'], call['kwnames'])
     elif kind == 'cache':
-        check_cache_history(c, call['seq'])
+        check_cache_history(c, call['seq'], call.get('universe') or 'main')
+    elif kind == 'try_seq':
+        check_try_sequence(c, call['W'], call['seq'])
     else:
         return dict(fails=None, detail='no replay for kind %r' % kind)
     v = list(c.violations.values())
